@@ -60,6 +60,7 @@ THEOREMS = {
                                 ("BS.Props.C10", "BS.Props.C10.bucketMeans_length"),
                                 ("BS.Props.C10", "BS.Props.C10.at_most_2n")]),
     "C11": (["BS.Props.C11", "BS.Props.C10", "BS.Props.C11Caches"], [("BS.Props.C11Caches", "BS.Props.C11.read_n_through_caches"),
+                                ("BS.Props.C11Caches", "BS.Props.C11.samples_increasing_within_bounds"),
                                 ("BS.Props.C11Caches", "BS.Props.C11.level_selection_total"),
                                 ("BS.Props.C11Caches", "BS.Props.C11.estimate_total_for_any_seek"),
                                 ("BS.Props.C11", "BS.Props.C11.estimate_total"),
@@ -193,9 +194,9 @@ for _pid, _cfg in PROPS.items():
     _cfg["theorems"] = thms
 
 LEVEL_TEXT = {
- "C01": "Kernel-checked for every payload size, every valid history (strictly increasing timestamps < 2^64, arbitrary payload bytes) and every buffer size: the buffered reader with carry-over equals a single pass (T3), scanning what the writer emits feeds the processor exactly the appended entries (T1), push_data keeps the files canonical (T2), and under the session invariant read_all(..) returns exactly the history (read_all_returns_history). The tie to the Rust code is the differential check (sparse/dense series over several 16 KiB buffers for every payload class, marker-like bytes, timestamps up to 2^64-1).",
+ "C01": "Kernel-checked for every payload size, every valid history (strictly increasing timestamps < 2^64, arbitrary payload bytes) and every buffer size: the buffered reader with carry-over equals a single pass (T3), scanning what the writer emits feeds the processor exactly the appended entries (T1), push_data keeps the files canonical (T2), and under the session invariant read_all(..) returns exactly the history (read_all_returns_history); the invariant is established by ByteSeries::new, kept by any sequence of append attempts and re-established by any reopen (C03/C04/C05 theorems through the API model), so this holds in every reachable state. The tie to the Rust code is the differential check (sparse/dense series over several 16 KiB buffers for every payload class, marker-like bytes, timestamps up to 2^64-1).",
  "C02": "Kernel-checked at full strength on the model: for EVERY pair of bounds (inclusive/exclusive/unbounded, anywhere relative to the data, in gaps, at delta edges) read_all(range) under the session invariant returns exactly the entries inside the bounds, or an empty result / range error when there are none (range_read_exact, seek_exact with start_side/end_side). Differential: every critical value as one-sided bound of each kind plus random pairs, on histories with gaps and delta edges.",
- "C03": "Kernel-checked on the model: push_line accepts iff the payload has the configured length and the timestamp is strictly newer (or the series is empty); a refusal returns the old directory and no new session; an acceptance re-establishes the session invariant, so the rule persists (accept_iff_strictly_newer). Reopen/repair persistence follows from C04/C05's open theorems at the data level. Differential: refused appends of every kind, several in a row, across reopens, with files/range/len/read_all compared after each.",
+ "C03": "Kernel-checked on the model: push_line accepts iff the payload has the configured length and the timestamp is strictly newer (or the series is empty); a refusal returns the old directory and no new session; an acceptance re-establishes the session invariant, so the rule persists (accept_iff_strictly_newer); builder.open after close or after a torn tail re-establishes the same invariant for the surviving lines (C04.api_reopen_preserves, C05.api_open_recovers_prefix), so the rule is then relative to the last surviving line. Differential: refused appends of every kind, several in a row, across reopens, with files/range/len/read_all compared after each.",
  "C04": "Kernel-checked on the model, end to end through the API: create (any payload size, header) -> ANY sequence of append attempts -> close -> builder.open with the index file in any legitimate prior state: succeeds, data file byte-identical, session invariant re-established for exactly the accepted history, so read_all/len/range/last_line and the append rule are those of one uninterrupted session, any number of times (api_reopen_preserves, read_after_reopen, reopen_preserves); last_meta_timestamp terminates, never panics and is exact for every line size (last_meta_timestamp_exact, window_larger_than_overlap). Hypothesis TailClean (no marker-like raw timestamp line; empty for payload >= 4) is the recorded known finding marker-tail. Reopen with caches configured is C09's ground (differential).",
  "C05": "Kernel-checked on the model, end to end through the API: create -> ANY append attempts -> data file cut at ANY byte x index file in ANY legitimate prior state (absent, cut at any byte, lagging, shorter than its header) -> builder.open succeeds and yields the canonical files and a session whose history is exactly the completely written prefix (api_open_recovers_prefix, open_recovers_written_prefix, repair_yields_written_prefix; unconditional for payload >= 4). For payload < 4 the hypothesis TailClean is needed - proved necessary by tailClean_needed_counterexample and recorded as known finding marker-tail. Differential: cut-point enumeration incl. every header line boundary x index states incl. stale .part, large files, crash-repair-append chains.",
  "C06": "Kernel-checked on the model: the incrementally maintained index (file bytes and entries) is exactly the section list of the data after every accepted append; an index rebuilt from the data is identical to it for every file length and chunk size; no legitimate prior state of the index file influences the result of an open (incremental_index_exact, rebuild_equals_incremental, rebuilt_file_bytes, prior_index_state_irrelevant, chunk_size_irrelevant). Differential incl. the window-sweep battery for the backwards last-timestamp search.",
@@ -203,11 +204,11 @@ LEVEL_TEXT = {
  "C08": "Kernel-checked at full strength on the model, for the harness's integer resampler: create a series with any payload size, header and any cache configuration (distinct bucket sizes 1 <= B <= 2^32), make ANY sequence of append attempts with timestamps < 2^64: no panic, and for EVERY level the cache data file is byte for byte header ++ encode(bucketMeans B history) and its index canonical (caches_exact_in_one_session, via the invariant cacheProcess_inv lifted to all reachable states by pushAll_inv); a cache created over pre-existing data of any length holds exactly the bucket means with the trailing bucket only in the accumulator (cache_created_over_existing_data), and further appends keep it exact (appending_keeps_caches_exact); bucketMeans is characterised entry by entry (bucketMeans_get/_length). Sums are u128/u64 as in the code: no overflow is part of the theorem. The generic ResampleState contract of other resamplers is an assumption.",
  "C09": "Kernel-checked on the model (integer resampler): a cache that is missing, intact or torn at ANY byte, with its index in any legitimate prior state, is brought back on open to exactly header ++ encode(bucketMeans B history) with the open bucket in the accumulator - for every line count of the source, every 1 <= B <= 2^32, every payload size and timestamp magnitude (cache_restored_on_open; the resume point line_pos is exact for every line number: resume_point_exact); one round of 'any append attempts, close, builder.open with the same configuration' re-establishes the invariant for the source and EVERY cache level and leaves source and intact cache files byte-identical, so any mix of appends and reopens equals one uninterrupted session (append_close_reopen_keeps_caches); after a crash (source cut at any byte, caches absent/torn relative to the surviving lines) the open repairs source and caches (reopen_repairs_source_and_caches). NOT a theorem: a cache that ran AHEAD of a torn source (never a panic, at most the straddling bucket deviates) - that clause is carried by the differential check (source torn with the cache ahead, B in {1,2,3,4,10}), as is a cache data file present with its index deleted. Hypothesis TailClean for payload < 4 (known finding marker-tail).",
  "C10": "Kernel-checked on the model: read_n without caches, for EVERY pair of bounds and n >= 1 (files up to 2^32 lines): uniform bucket means with one bucket size b >= 1 of exactly the lines a full read of the range returns, at most 2n of them, no overflow (read_n_of_any_range, sampler_is_bucket_means, at_most_2n). The resampler is the harness's integer resampler over the library's own u64 ResampleState; the generic resampler contract is an assumption.",
- "C11": "Kernel-checked at full strength on the model: in every state satisfying the session invariant with any number of cache levels (listed by increasing bucket size), for every n >= 1 and EVERY pair of bounds, read_n never panics (ordering assert, level selection, estimate_lines incl. its unreachable! arm, seek, read), selects one stored level and returns exactly uniform bucket means (one b >= 1) of that level's stored lines inside the bounds, at most 2n of them, or an empty result / range error when the level has nothing in range (read_n_through_caches, level_selection_total, estimate_total_for_any_seek, unreachable_arm); the level's content is pinned by C08/C09 (cache B = bucketMeans B history). Differential: every stored level decoded independently and the result matched against it (judge ~readnc), caches longer in bytes than finer ones, ranges inside gaps of a cache.",
+ "C11": "Kernel-checked at full strength on the model: in every state satisfying the session invariant with any number of cache levels (listed by increasing bucket size), for every n >= 1 and EVERY pair of bounds, read_n never panics (ordering assert, level selection, estimate_lines incl. its unreachable! arm, seek, read), selects one stored level and returns exactly uniform bucket means (one b >= 1) of that level's stored lines inside the bounds, at most 2n of them, with strictly increasing timestamps all inside the requested bounds (samples_increasing_within_bounds), or an empty result / range error when the level has nothing in range (read_n_through_caches, level_selection_total, estimate_total_for_any_seek, unreachable_arm); the level's content is pinned by C08/C09 (cache B = bucketMeans B history). Differential: every stored level decoded independently and the result matched against it (judge ~readnc), caches longer in bytes than finer ones, ranges inside gaps of a cache.",
  "C12": "Kernel-checked on the model under the session invariant: len() = number of accepted lines, range() = first/last timestamp, last time = last line's timestamp, payload size constant; byte-size formula (len_is_count, range_is_first_last, size_formula), last_line() returns the last accepted line read back from the file (last_line_is_last). After reopen / repair / rebuild the invariant is re-established by C04/C05's open theorems through the API (len_after_reopen with api_reopen_preserves / api_open_recovers_prefix). Differential incl. the smallest series seen again after reopen and torn tails that lose several sections.",
  "C13": "Kernel-checked on the model: read_first_n(n >= 1, range) for EVERY pair of bounds returns the first min(n,k) of the k entries read_all(range) returns (first_n_of_any_range, processor_takes_prefix), and the paging loop of examples/read.rs (continue one past the last timestamp seen) ends within len+3 rounds having collected exactly the history, in order, for EVERY page size n >= 1 (paging_visits_every_line_once). Differential: first-n vs full reads for random ranges, page op for page sizes 1..len+1.",
  "C14": "Kernel-checked on the model for EVERY pair of bounds: n_lines_between is 0 / a range error iff no entry is in range, else k + lines_per_metainfo * m with m <= k sections opened by entries in range (count_consistent, range_bytes).",
- "C15": "Kernel-checked: push_data keeps data file = header ++ encode(history) where encode opens a section for the first line and iff the distance to the last full timestamp exceeds 65534 \u2014 a pure function of header and accepted lines; size formula; after any open the file is again canonical (C04/C05) (push_keeps_canonical, size_formula, section_rule).",
+ "C15": "Kernel-checked: push_data keeps data file = header ++ encode(history) where encode opens a section for the first line and iff the distance to the last full timestamp exceeds 65534 \u2014 a pure function of header and accepted lines; size formula; after any open - intact or after a tail torn at any byte - the file is again the canonical encoding of the surviving lines (C04.api_reopen_preserves, C05.api_open_recovers_prefix) (push_keeps_canonical, size_formula, section_rule).",
  "C16": "Kernel-checked on the model: push_line only appends - whatever it returns, every file of the series and of every cache level keeps its previous content as a prefix, none is created, deleted or truncated, for ANY directory and session state (push_line_only_appends; pushData_appends, cacheProcess_appends); every query operation leaves the directory exactly as it was (queries_never_write, over the whole step function). The tie to the code is the differential file audit: bsrun snapshots every file before and after every call and the change class (same/append/other) is compared with the model's and with the rule.",
  "C17": "Kernel-checked on the model: the header round trip for EVERY payload size a usize holds and EVERY user header (any bytes, incl. the parser's own patterns): what creation writes is parsed back to exactly that payload size and header, a different demanded payload size is refused with PayloadSizeChanged (header_and_size_stored_and_enforced = T10); through the whole API model create -> any appends -> close or crash -> builder.open (size demanded or retrieved, header demanded or any) returns the stored header, size and lines (reopen_returns_header_and_size); wrong size: error and the directory untouched; missing series: error, nothing created; create over existing: error, files untouched; oversized header: error, nothing left behind (4 theorems). Modelled, not proved: a demanded header that differs (decided by one comparison in the model), the path/extension handling and the OS create_new semantics - those are differential (header lengths around the 16-bit limit, binary headers, every option combination, directory listing before/after). One known finding (stale-cache-create).",
  "C18": "Kernel-checked on the model of read_with_processor, for every processor and every content around the damage: without consent the read stops with CorruptMetaSection exactly at the damaged section; with consent every line up to the next intact section is dropped without reaching the processor and reading resumes after that section with its timestamp (no_consent_is_error, skipping_drops, consent_resumes_at_next_section). Differential incl. damaged sections longer than one and two read buffers.",
